@@ -785,6 +785,13 @@ func ExplainResult(sp *spec.Spec, m *spec.Method, result any) []string {
 				}
 			}
 		}
+		if strings.HasPrefix(resp.Body, "attr:") {
+			// Body("attr") with the optional attribute left unset: the generated constructors take its value without a
+			// nil check (listed finding, the response side of body-attr-absent)
+			if v, ok := ro[strings.TrimPrefix(resp.Body, "attr:")]; !ok || v == nil {
+				tags = append(tags, "body-attr-absent")
+			}
+		}
 		if resp.TagAttr != "" {
 			// tagged responses write their headers without a nil check (listed finding)
 			for _, h := range resp.Headers {
